@@ -56,7 +56,9 @@ PARTS = BASE + [
     Prelude('body.spec.rs'),
 ] + [
     Fragment(R, 'step', 'TreeBuilder', r'InsertionMode::InBody => match token \{',
-             'fn %s(&mut self, token: Token) -> ProcessResult { match token' % nm, nm, wrap='impl TreeBuilder') for nm in NAMES
+             'fn %s(&mut self, token: Token) -> ProcessResult { match token' % nm, nm, wrap='impl TreeBuilder',
+             # one canary twin (of the unsliced copy) tests the precondition that all copies share
+             canary=(nm == NAMES[0])) for nm in NAMES
 ] + [
     Raw('} // verus!\nfn main() {}'),
 ]
